@@ -1,10 +1,10 @@
 (* C05 - Client: every operation completes exactly once under cancel, Close and failure.
    Property theorems only; every proof is `exact <lemma>` (lemmas in coq/cli/CliC05.v, CliProofs.v, CliLive.v,
-   CliHist.v, CliWg.v, CliStop.v, CliCloseWait.v, CliGo.v, CliFail.v, CliBatch.v; invariants in coq/cli/CliInv.v, CliRet.v, CliCtx.v, CliOps.v, CliHist.v, CliWg.v,
+   CliHist.v, CliWg.v, CliStop.v, CliCloseWait.v, CliGo.v, CliFail.v, CliBatch.v, CliProgress.v, CliProgress2.v; invariants in coq/cli/CliInv.v, CliRet.v, CliCtx.v, CliOps.v, CliHist.v, CliWg.v,
    CliStop.v). *)
 From Coq Require Import List NArith ZArith Bool Arith.
 From RecordUpdate Require Import RecordUpdate.
-From JV Require Import Bytes Msg CliModel CliLemmas CliInv CliRet CliProofs CliC05 CliCtx CliOps CliHist CliLive CliWg CliSend CliNoStop CliStep CliStop CliObs CliCloseWait CliGo CliOpTrans CliFail CliBatch.
+From JV Require Import Bytes Msg CliModel CliLemmas CliInv CliRet CliProofs CliC05 CliCtx CliOps CliHist CliLive CliWg CliSend CliNoStop CliStep CliStop CliObs CliCloseWait CliGo CliOpTrans CliFail CliBatch CliProgress CliProgress2.
 Import ListNotations.
 
 (* EXACTLY ONE RETURN (full statement).  In every history of every schedule each operation (Call, Batch, Notify,
@@ -217,3 +217,30 @@ Theorem c05_batch_outcome : forall c tr s, traces_to c tr s ->
                                /\ p = (id_text (sl_id sl), batch_res v) /\ slot_outcome s sl v) (o_slots o) rs.
 Proof. exact batch_outcome. Qed.
 Print Assumptions c05_batch_outcome.
+
+(* LIVENESS GROUNDWORK.  (a) Every release label offered by [enabled_rel] (a goroutine parked at a scheduling point) is
+   enabled.  (b) Fuel adequacy of [settle]: after every step from a reachable state no unhooked micro step is left, so
+   the state returned by [step] has run ALL consequences that happen without passing a scheduling point (a caller
+   whose value arrived has taken it and returned, a Close whose wait group emptied has returned); hence a reachable
+   state is quiescent iff nothing is parked. *)
+Theorem c05_settle_adequate : forall c s, reach c s ->
+  settle1 s = None
+  /\ (quiescent s = true <-> enabled_rel s = [])
+  /\ (forall l, In l (enabled_rel s) -> is_rel l = true /\ exists s' os, step s l = Some (s', os) /\ settle1 s' = None).
+Proof. exact settle_adequate_all. Qed.
+Print Assumptions c05_settle_adequate.
+
+(* (c) PROGRESS: releasing any parked goroutine strictly decreases [potential] (work left at the scheduling points:
+   specs still to be given an id, sends, watcher / delivery / callback-reply / reader-error / Close critical sections
+   still to run, records still to be read, the stop still to happen); hence every history can be extended, by releases
+   only - no new API call, no peer or transport event - to a quiescent one, in at most [potential s] steps: no
+   goroutine of the client spins or stays runnable forever. *)
+Theorem c05_release_progress : forall c s l s' os, reach c s -> is_rel l = true -> step s l = Some (s', os) ->
+  potential s' < potential s.
+Proof. exact release_decreases. Qed.
+Print Assumptions c05_release_progress.
+
+Theorem c05_quiescent_reachable : forall c tr s, traces_to c tr s ->
+  exists tr2 s', Forall (fun l => is_rel l = true) tr2 /\ traces_to c (tr ++ tr2) s' /\ quiescent s' = true.
+Proof. exact trace_drains. Qed.
+Print Assumptions c05_quiescent_reachable.
